@@ -8,6 +8,8 @@ import PanqecVerif.Model.Sweep
 
 namespace Panqec.Sweep
 
+set_option linter.unusedSimpArgs false
+
 /-! ### parity sums -/
 
 @[simp] theorem xorSum_nil {α : Type} (f : α → Bool) : xorSum ([] : List α) f = false := rfl
